@@ -1,6 +1,9 @@
 import RV.C20.Props
 import RV.C20.TextProps
 import RV.C20.ValuesProps
+import RV.C20.ConnProps
+import RV.C20.ResultProps
+import RV.C20.EndToEnd
 open RV.C20
 #print axioms remote_mirrors
 #print axioms deferred_visibility
@@ -19,3 +22,10 @@ open RV.C20
 #print axioms query_text_means_pattern
 #print axioms named_graph_rewrite_means_move
 #print axioms values_block_means_join
+#print axioms request_assembly_means_op
+#print axioms accept_names_result_format
+#print axioms result_decoding_exact
+#print axioms answer_comes_back
+#print axioms context_argument_reaches_endpoint
+#print axioms commit_reaches_endpoint_as_operations
+#print axioms pattern_read_reaches_endpoint
